@@ -5,7 +5,7 @@ use crate::gc::{Gc, Guard};
 use crate::interpreter::Interpreter;
 use crate::parser::Parser;
 use crate::prelude::{
-    String, ToString, Vec, format, index_map_with_capacity, index_set_with_capacity,
+    FxHashMap, String, ToString, Vec, format, index_map_with_capacity, index_set_with_capacity,
 };
 use crate::value::{
     CheapClone, ExoticObject, Guarded, JsMapKey, JsObject, JsString, JsValue, Property, PropertyKey,
@@ -686,8 +686,10 @@ pub fn global_structured_clone(
     let value = args.first().cloned().unwrap_or(JsValue::Undefined);
     let guard = interp.heap.create_guard();
 
-    // Clone the value
-    let cloned = structured_clone_internal(interp, &guard, &value)?;
+    // Clone the value; `memo` maps every source object to its clone so that shared
+    // and cyclic references are preserved instead of being followed forever
+    let mut memo: FxHashMap<usize, Gc<JsObject>> = FxHashMap::default();
+    let cloned = structured_clone_internal(interp, &guard, &value, &mut memo)?;
 
     Ok(Guarded::with_guard(cloned, guard))
 }
@@ -697,6 +699,7 @@ fn structured_clone_internal(
     interp: &mut Interpreter,
     guard: &Guard<JsObject>,
     value: &JsValue,
+    memo: &mut FxHashMap<usize, Gc<JsObject>>,
 ) -> Result<JsValue, JsError> {
     match value {
         // Primitives are returned as-is (they're value types)
@@ -712,7 +715,7 @@ fn structured_clone_internal(
         )),
 
         // Objects require deep cloning
-        JsValue::Object(obj) => clone_object(interp, guard, obj),
+        JsValue::Object(obj) => clone_object(interp, guard, obj, memo),
     }
 }
 
@@ -721,7 +724,13 @@ fn clone_object(
     interp: &mut Interpreter,
     guard: &Guard<JsObject>,
     obj: &Gc<JsObject>,
+    memo: &mut FxHashMap<usize, Gc<JsObject>>,
 ) -> Result<JsValue, JsError> {
+    // Already cloned (shared or cyclic reference): the same clone again
+    if let Some(existing) = memo.get(&obj.id()) {
+        return Ok(JsValue::Object(existing.cheap_clone()));
+    }
+
     let obj_ref = obj.borrow();
 
     // Check the exotic type
@@ -752,12 +761,18 @@ fn clone_object(
             let elements_to_clone: Vec<JsValue> = elements.clone();
             drop(obj_ref); // Release borrow before recursive calls
 
+            // Register the (still empty) clone before descending
+            let arr = interp.create_array_from(guard, Vec::new());
+            memo.insert(obj.id(), arr.cheap_clone());
+
             let mut cloned_elements = Vec::with_capacity(elements_to_clone.len());
             for elem in &elements_to_clone {
-                cloned_elements.push(structured_clone_internal(interp, guard, elem)?);
+                cloned_elements.push(structured_clone_internal(interp, guard, elem, memo)?);
             }
 
-            let arr = interp.create_array_from(guard, cloned_elements);
+            if let ExoticObject::Array { elements } = &mut arr.borrow_mut().exotic {
+                *elements = cloned_elements;
+            }
             Ok(JsValue::Object(arr))
         }
 
@@ -769,14 +784,16 @@ fn clone_object(
                 .collect();
             drop(obj_ref);
 
+            let map_obj = interp.create_object(guard);
+            memo.insert(obj.id(), map_obj.cheap_clone());
+
             let mut cloned_entries = index_map_with_capacity(entries_to_clone.len());
             for (key, val) in &entries_to_clone {
-                let cloned_key = structured_clone_internal(interp, guard, key)?;
-                let cloned_val = structured_clone_internal(interp, guard, val)?;
+                let cloned_key = structured_clone_internal(interp, guard, key, memo)?;
+                let cloned_val = structured_clone_internal(interp, guard, val, memo)?;
                 cloned_entries.insert(JsMapKey(cloned_key), cloned_val);
             }
 
-            let map_obj = interp.create_object(guard);
             {
                 let mut map_ref = map_obj.borrow_mut();
                 map_ref.prototype = Some(interp.map_prototype.clone());
@@ -792,12 +809,16 @@ fn clone_object(
             let entries_to_clone: Vec<JsValue> = entries.iter().map(|k| k.0.clone()).collect();
             drop(obj_ref);
 
+            let set_obj = interp.create_object(guard);
+            memo.insert(obj.id(), set_obj.cheap_clone());
+
             let mut cloned_entries = index_set_with_capacity(entries_to_clone.len());
             for entry in &entries_to_clone {
-                cloned_entries.insert(JsMapKey(structured_clone_internal(interp, guard, entry)?));
+                cloned_entries.insert(JsMapKey(structured_clone_internal(
+                    interp, guard, entry, memo,
+                )?));
             }
 
-            let set_obj = interp.create_object(guard);
             {
                 let mut set_ref = set_obj.borrow_mut();
                 set_ref.prototype = Some(interp.set_prototype.clone());
@@ -951,10 +972,11 @@ fn clone_object(
             drop(obj_ref);
 
             let cloned_obj = interp.create_object(guard);
+            memo.insert(obj.id(), cloned_obj.cheap_clone());
 
             // Clone each property
             for (key, value) in &props_to_clone {
-                let cloned_value = structured_clone_internal(interp, guard, value)?;
+                let cloned_value = structured_clone_internal(interp, guard, value, memo)?;
                 cloned_obj
                     .borrow_mut()
                     .set_property(key.clone(), cloned_value);
